@@ -28,6 +28,7 @@ pub fn probe(args: &[String]) -> i32 {
     let list = std::io::BufReader::new(std::fs::File::open(&args[1]).expect("list"));
     let mut out = std::io::BufWriter::new(std::fs::File::create(&args[2]).expect("out"));
     std::panic::set_hook(Box::new(|_| {}));
+    let watchdog_s: u64 = std::env::var("MVH_WATCHDOG_S").ok().and_then(|v| v.parse().ok()).unwrap_or(40);
     // watchdog: a single state must not take longer than this
     let deadline = std::sync::Arc::new(std::sync::atomic::AtomicU64::new(0));
     {
@@ -53,7 +54,7 @@ pub fn probe(args: &[String]) -> i32 {
         let (tag, dir) = (parts[0], Path::new(parts[1]));
         let flags = parts.get(2).copied().unwrap_or("");
         let now = std::time::SystemTime::now().duration_since(std::time::UNIX_EPOCH).map(|x| x.as_secs()).unwrap_or(0);
-        deadline.store(now + 25, std::sync::atomic::Ordering::SeqCst);
+        deadline.store(now + watchdog_s, std::sync::atomic::Ordering::SeqCst);
         // progress marker so that a hang can be attributed
         writeln!(out, "{}", json!({"tag": tag, "stage": "begin"})).unwrap();
         out.flush().unwrap();
